@@ -50,7 +50,7 @@ def unit_term(draw):
     return ["u", p, s, n, d, style]
 
 
-num_term = st.sampled_from(["2", "2.5", "1e3", "10", ".5", "3.", "4e2", "1.5e1", "7"]).map(lambda x: ["n", x])
+num_term = st.sampled_from(["2", "2.5", "1e3", "10", ".5", "3.", "4e2", "1.5e1", "7", "-2", "-1.5e-3", "-4", "-0.5"]).map(lambda x: ["n", x])
 leaf = st.one_of(unit_term(), unit_term(), unit_term(), unit_term(), num_term)
 
 
